@@ -15,7 +15,7 @@ from pint.errors import DimensionalityError
 
 from .. import covers, regs
 from ..runner import Case
-from ..sx.q import And, Eq, Not
+from ..sx.q import Or, And, Eq, Not
 from ..sx.stubs import ufloat_stub
 
 PROPERTY = "C19"
@@ -102,14 +102,27 @@ def h_constructors(eng, u, u2):
 
 
 def h_negative_error(eng, u):
+    """every constructor form rejects a negative error -- and only a negative one"""
     ureg, (v, e) = _reg_and_nums(eng, ["v", "e"])
     with _Ctx(eng):
-        try:
-            ureg.Measurement(v, e, u)
-        except ValueError:
-            eng.prove(e < 0, "negative-error-rejected-only-when-negative")
-            return
-        eng.prove(e >= 0, "error-accepted-only-when-non-negative")
+        forms = {
+            "Measurement(v,e,u)": lambda: ureg.Measurement(v, e, u),
+            "Measurement(Q,Q)": lambda: ureg.Measurement(ureg.Quantity(v, u), ureg.Quantity(e, u)),
+            "plus_minus(e)": lambda: ureg.Quantity(v, u).plus_minus(e),
+            "plus_minus(Q)": lambda: ureg.Quantity(v, u).plus_minus(ureg.Quantity(e, u)),
+            "plus_minus(e,relative)": lambda: ureg.Quantity(v, u).plus_minus(e, relative=True),
+        }
+        for name, fn in forms.items():
+            try:
+                fn()
+            except ValueError:
+                # a relative error of a zero value is zero whatever its sign
+                eng.prove(e < 0, f"negative-error-rejected-only-when-negative:{name}")
+                continue
+            if name == "plus_minus(e,relative)":
+                eng.prove(Or(e >= 0, Eq(v, 0)), f"error-accepted-only-when-non-negative:{name}")
+            else:
+                eng.prove(e >= 0, f"error-accepted-only-when-non-negative:{name}")
 
 
 def h_convert(eng, u, w):
